@@ -243,7 +243,10 @@ func (p *c17) singleFault(idx int, r *lib.Rand) lib.Case {
 	names := []string{"a", "b", "c", "foo", "bar", "x-1", "ünï", "n0", "items", "default", "é1", "50%d", "pct%", "%v"}
 	steps := make([]step, depth)
 	for i := range steps {
-		switch r.Intn(4) {
+		switch r.Intn(5) {
+		case 4:
+			// an element beyond the tuple, judged by a schema-valued additionalItems (positional as well)
+			steps[i] = step{kind: "beyond", idx: r.Range(1, 3)}
 		case 0:
 			steps[i] = step{kind: "prop", name: names[r.Intn(len(names))]}
 		case 1:
@@ -306,6 +309,17 @@ func (p *c17) singleFault(idx int, r *lib.Rand) lib.Case {
 		case "additional":
 			schema = map[string]any{"type": "object", "additionalProperties": schema, "properties": map[string]any{"sib": map[string]any{}}, "patternProperties": map[string]any{"^x-": map[string]any{}}}
 			val = map[string]any{s.name: val, "sib": true, "x-free": gen.I(3)}
+		case "beyond":
+			// a tuple of s.idx permissive members; the offending element is the first one beyond it, judged by additionalItems
+			tuple := make([]any, s.idx)
+			arr := make([]any, s.idx+1)
+			for k := range tuple {
+				tuple[k] = map[string]any{}
+				arr[k] = gen.I(k)
+			}
+			arr[s.idx] = val
+			schema = map[string]any{"type": "array", "items": tuple, "additionalItems": schema}
+			val = arr
 		case "tuple":
 			tuple := make([]any, s.idx+1)
 			arr := make([]any, s.idx+2)
@@ -324,7 +338,7 @@ func (p *c17) singleFault(idx int, r *lib.Rand) lib.Case {
 	// expected name
 	var parts []string
 	for _, s := range steps {
-		if s.kind == "tuple" {
+		if s.kind == "tuple" || s.kind == "beyond" {
 			parts = append(parts, strconv.Itoa(s.idx))
 		} else {
 			parts = append(parts, s.name)
